@@ -23,28 +23,25 @@ Proof.
   intros c Hf Hd. assert (Hb := Hd). split_dom Hb D2 D1 D0 D.
   unfold keywords_ok in D0. apply andb_true_iff in D0 as [K _].
   unfold m_call, s_call, m_member. destruct Hf as [F|F]; rewrite F in *; cbn in D, K.
-  - apply andb_true_iff in D as [L T].
-    destruct (c_seq c) eqn:S; try discriminate L; cbn [elems].
+  - destruct (c_seq c) eqn:S; try discriminate D; cbn [elems].
     + reflexivity.
-    + destruct (c_test c); try discriminate T; now rewrite drop_until_eq.
+    + destruct (c_test c); now rewrite drop_until_eq.
   - destruct (c_seq c) eqn:S; try discriminate D; cbn [elems].
     + reflexivity.
     + destruct (c_test c); try discriminate K. now rewrite drop_until_eq.
 Qed.
 
 (* ---- assoc ------------------------------------------------------------------------------------------------ *)
-Lemma assoc_test_symmetric : forall t item k, test_symmetric t = true -> assoc_test t item k = item_match t item None k.
-Proof.
-  intros [|[]|[]] item k H; try discriminate; cbn; try reflexivity; rewrite (Z.eqb_sym k item); reflexivity.
-Qed.
+Lemma assoc_test_item_match : forall t item k, assoc_test t item k = item_match t item None k.
+Proof. intros [| |] item k; reflexivity. Qed.
 
 Lemma find_ext : forall (A : Type) (f g : A -> bool) l, (forall x, f x = g x) -> find f l = find g l.
 Proof. intros A f g l H. induction l as [|x t IH]; [reflexivity|]. cbn. now rewrite H, IH. Qed.
 
-Lemma assoc_find_eq : forall t item key (side : Z * Z -> Z) al, test_symmetric t = true ->
+Lemma assoc_find_eq : forall t item key (side : Z * Z -> Z) al,
   find (fun kv => assoc_test t item (key_app key (side kv))) al = find (fun kv => item_match t item key (side kv)) al.
 Proof.
-  intros. apply find_ext. intros kv. rewrite assoc_test_symmetric by assumption.
+  intros. apply find_ext. intros kv. rewrite assoc_test_item_match.
   unfold item_match. cbn [key_app]. reflexivity.
 Qed.
 
@@ -55,17 +52,15 @@ Theorem assoc_meets_spec : forall c, is_assoc_fn (c_fn c) = true -> in_domain c 
 Proof.
   intros c Hf Hd. assert (Hb := Hd). split_dom Hb D2 D1 D0 D.
   unfold keywords_ok in D0. apply andb_true_iff in D0 as [K _].
-  assert (exists ks, c_seq c = SList ks) as [ks S].
+  assert (list_arg (c_seq c) = Some (elems (c_seq c))) as S.
   { destruct (c_fn c); try discriminate Hf; cbn in D; repeat (apply andb_true_iff in D as [D ?]);
-      destruct (c_seq c); try discriminate; eauto. }
-  unfold m_call, s_call, m_assoc, s_assoc. rewrite S. cbn [elems].
+      destruct (c_seq c); try discriminate; reflexivity. }
+  unfold m_call, s_call, m_assoc, s_assoc. rewrite S.
   destruct (c_fn c) eqn:F; try discriminate Hf; cbn in D, K.
-  - apply andb_true_iff in D as [_ T]. f_equal.
-    destruct (c_test c) eqn:E; try discriminate T; rewrite <- E in *; rewrite assoc_find_eq by exact T; reflexivity.
+  - reflexivity.
   - destruct (c_test c); try discriminate K. reflexivity.
   - destruct (c_test c); try discriminate K. reflexivity.
-  - apply andb_true_iff in D as [_ T]. f_equal.
-    destruct (c_test c) eqn:E; try discriminate T; rewrite <- E in *; rewrite assoc_find_eq by exact T; reflexivity.
+  - reflexivity.
   - destruct (c_test c); try discriminate K. reflexivity.
 Qed.
 
@@ -76,16 +71,11 @@ Ltac get_bounds Hb B1 B2 :=
 Theorem subseq_meets_spec : forall c, c_fn c = FSubseq -> in_domain c = true -> m_call c = s_call c.
 Proof.
   intros c F Hd. assert (Hb := Hd). split_dom Hb D2 D1 D0 D. get_bounds Hb B1 B2.
-  rewrite F in D. cbn in D.
   unfold m_call, s_call, m_subseq. rewrite F. fold (s_start c).
-  unfold s_end in *.
-  destruct (c_seq c) eqn:S; try discriminate D; cbn [elems] in *;
-    destruct (c_end c) as [e|];
-    (destruct (Nat.ltb_spec (length l) (s_start c)); [lia|]);
-    try (destruct (Nat.ltb_spec (length l) e); [lia|]);
-    try (destruct (Nat.ltb_spec (length l) (length l)); [lia|]); cbn [orb];
-    try (destruct (Nat.ltb_spec e (s_start c)); [lia|]);
-    try (destruct (Nat.ltb_spec (length l) (s_start c)); [lia|]); reflexivity.
+  change (match c_end c with Some n => n | None => length (elems (c_seq c)) end) with (s_end c (elems (c_seq c))).
+  destruct (Nat.ltb_spec (length (elems (c_seq c))) (s_start c)); [lia|].
+  destruct (Nat.ltb_spec (length (elems (c_seq c))) (s_end c (elems (c_seq c)))); [lia|]. cbn [orb].
+  destruct (Nat.ltb_spec (s_end c (elems (c_seq c))) (s_start c)); [lia|reflexivity].
 Qed.
 
 Theorem fill_meets_spec : forall c, c_fn c = FFill -> in_domain c = true -> m_call c = s_call c.
@@ -115,51 +105,42 @@ Lemma seq_to_list_ok : forall s (st : option nat) (e : option nat),
   let st' := match st with Some n => n | None => 0%nat end in
   let en := match e with Some n => n | None => length l end in
   (st' <= en)%nat -> (en <= length l)%nat ->
-  ((st' <? length l)%nat || (start_absent st && start_absent e && (length l =? 0)%nat)) = true ->
   seq_to_list s st e = LOk (slice st' en l).
 Proof.
-  intros s st e l st' en H1 H2 H3. unfold seq_to_list. fold l. fold st'.
-  apply orb_true_iff in H3 as [H3|H3].
-  - apply Nat.ltb_lt in H3.
-    assert (((st' =? 0) && (length l =? 0))%nat = false) as ->.
-    { destruct (Nat.eqb_spec (length l) 0); [lia|]. apply andb_false_r. }
-    cbn [andb]. destruct (Nat.leb_spec (length l) st'); [lia|].
+  intros s st e l st' en H1 H2. unfold seq_to_list. fold l. fold st'.
+  destruct (((st' =? 0) && (length l =? 0))%nat && match e with None => true | _ => false end) eqn:Sp.
+  - apply andb_true_iff in Sp as [Sp E]. apply andb_true_iff in Sp as [S0 L0].
+    apply Nat.eqb_eq in S0, L0. destruct e; [discriminate|]. cbn in en. subst en. rewrite S0.
+    destruct l; [reflexivity|discriminate].
+  - destruct (Nat.ltb_spec (length l) st'); [lia|].
     destruct e as [n|]; cbn in en; subst en.
     + destruct (Nat.ltb_spec (length l) n); [lia|]. destruct (Nat.ltb_spec n st'); [lia|reflexivity].
     + now rewrite slice_all.
-  - apply andb_true_iff in H3 as [H3 H5]. apply andb_true_iff in H3 as [H3 H4].
-    destruct st; try discriminate H3. destruct e; try discriminate H4. cbn in st', en. subst st' en.
-    apply Nat.eqb_eq in H5. rewrite H5. cbn. destruct l; [reflexivity|discriminate].
 Qed.
 
 Theorem replace_meets_spec : forall c, c_fn c = FReplace -> in_domain c = true -> m_call c = s_call c.
 Proof.
   intros c F Hd. assert (Hb := Hd). split_dom Hb D2 D1 D0 D. get_bounds Hb B1 B2.
   rewrite F in D. cbn in D.
-  apply andb_true_iff in D as [D G4]. apply andb_true_iff in D as [D G3]. apply andb_true_iff in D as [G1 G2].
-  unfold bounds2_ok in G1. apply andb_true_iff in G1 as [C1 C2]. apply Nat.leb_le in C1, C2.
+  unfold bounds2_ok in D. apply andb_true_iff in D as [C1 C2]. apply Nat.leb_le in C1, C2.
   unfold m_call, s_call, m_replace, s_replace. rewrite F.
-  rewrite (seq_to_list_ok (c_seq2 c) (c_start2 c) (c_end2 c) C1 C2 G4).
+  rewrite (seq_to_list_ok (c_seq2 c) (c_start2 c) (c_end2 c) C1 C2).
   fold (s_start c). fold (s_start2 c).
   change (match c_end2 c with Some n => n | None => length (elems (c_seq2 c)) end) with (s_end2 c (elems (c_seq2 c))).
   set (w2 := slice (s_start2 c) (s_end2 c (elems (c_seq2 c))) (elems (c_seq2 c))).
-  assert (forall l, elems (c_seq c) = l -> not_nil (c_seq c) = true ->
+  assert (forall l, elems (c_seq c) = l ->
     match replace_check (c_start c) (c_end c) (length l) with
     | None => RErr EError
     | Some e1 => let n := Nat.min (e1 - s_start c) (length w2) in RSeq (firstn (s_start c) l ++ firstn n w2 ++ skipn (s_start c + n) l)
     end = RSeq (firstn (s_start c) l ++ firstn (Nat.min (s_end c l - s_start c) (length w2)) w2 ++
                 skipn (s_start c + Nat.min (s_end c l - s_start c) (length w2)) l)) as Hgen.
-  { intros l Hl Hn. rewrite Hl, Hn in *. cbn [negb orb] in G2. rewrite orb_false_r in G2.
-    unfold replace_check. fold (s_start c).
-    apply orb_true_iff in G2 as [G2|G2].
-    - apply Nat.ltb_lt in G2.
-      assert (((length l =? 0) && (s_start c =? 0))%nat = false) as -> by (destruct (Nat.eqb_spec (length l) 0); [lia|reflexivity]).
-      cbn [andb]. destruct (Nat.leb_spec (length l) (s_start c)); [lia|].
+  { intros l Hl. rewrite Hl in *. unfold replace_check. fold (s_start c).
+    destruct (((length l =? 0) && (s_start c =? 0))%nat && match c_end c with None => true | _ => false end) eqn:Sp.
+    - apply andb_true_iff in Sp as [Sp E]. apply andb_true_iff in Sp as [L0 S0].
+      apply Nat.eqb_eq in S0, L0. unfold s_end in *. destruct (c_end c); [discriminate|]. rewrite L0. reflexivity.
+    - destruct (Nat.ltb_spec (length l) (s_start c)); [lia|].
       unfold s_end in *. destruct (c_end c) as [n|]; [|reflexivity].
-      apply Nat.ltb_lt in G3. destruct (Nat.leb_spec (length l) n); [lia|]. destruct (Nat.ltb_spec n (s_start c)); [lia|reflexivity].
-    - apply andb_true_iff in G2 as [G2 G5]. apply andb_true_iff in G2 as [Ga Gb].
-      unfold s_start, s_end in *. destruct (c_start c); try discriminate Ga. destruct (c_end c); try discriminate Gb.
-      apply Nat.eqb_eq in G5. rewrite G5. cbn. destruct l; [|discriminate]. reflexivity. }
+      destruct (Nat.ltb_spec (length l) n); [lia|]. destruct (Nat.ltb_spec n (s_start c)); [lia|reflexivity]. }
   destruct (c_seq c) eqn:S; cbn [elems] in *.
   - f_equal. assert (s_end c [] = 0%nat /\ s_start c = 0%nat) as [-> ->] by (cbn in B2; lia).
     cbn. reflexivity.
@@ -174,26 +155,13 @@ Definition is_quant_fn (f : fname) : bool := match f with FEvery | FSome | FNota
 Theorem quant_meets_spec : forall c, is_quant_fn (c_fn c) = true -> in_domain c = true -> m_call c = s_call c.
 Proof.
   intros c Hf Hd. assert (Hb := Hd). split_dom Hb D2 D1 D0 D.
-  assert (not_nil (c_seq c) = true /\ ((c_nseq c =? 1)%nat || not_nil (c_seq2 c)) = true) as [N1 N2].
-  { destruct (c_fn c); try discriminate Hf; cbn in D; repeat (apply andb_true_iff in D as [D ?]); auto. }
-  assert (quant_vals c = QVals (s_quant_vals c)) as Hq.
-  { unfold quant_vals, s_quant_vals. rewrite test2_s_test2.
-    destruct (c_nseq c) as [|[|n]]; cbn in N2.
-    - destruct (c_seq c); try discriminate N1; destruct (c_seq2 c); try discriminate N2; reflexivity.
-    - destruct (c_seq c); try discriminate N1; reflexivity.
-    - destruct (c_seq c); try discriminate N1; destruct (c_seq2 c); try discriminate N2; reflexivity. }
+  assert (quant_vals c = s_quant_vals c) as Hq.
+  { unfold quant_vals, s_quant_vals. now rewrite test2_s_test2. }
   unfold m_call, s_call, m_quant. rewrite Hq.
   destruct (c_fn c) eqn:F; try discriminate Hf; try reflexivity.
   (* some *)
   cbn in D. apply andb_true_iff in D as [_ D]. destruct (c_flag c); [|reflexivity].
-  cbn in D. apply andb_true_iff in D as [Dn De]. apply Nat.eqb_eq in Dn. apply negb_true_iff in De.
-  unfold s_quant_vals. rewrite Dn.
-  assert (find (pred_app (c_pred c)) (elems (c_seq c)) = None) as ->.
-  { destruct (find (pred_app (c_pred c)) (elems (c_seq c))) eqn:E; [|reflexivity].
-    apply find_some in E as [Hin Hp].
-    assert (existsb (pred_app (c_pred c)) (elems (c_seq c)) = true) by (apply existsb_exists; eauto). congruence. }
-  assert (existsb (fun b => b) (map (pred_app (c_pred c)) (elems (c_seq c))) = false) as ->; [|reflexivity].
-  rewrite <- De. clear. induction (elems (c_seq c)) as [|x t IH]; [reflexivity|]. cbn. now rewrite IH.
+  cbn in D. rewrite D. reflexivity.
 Qed.
 
 Theorem map_meets_spec : forall c, (c_fn c = FMap \/ c_fn c = FMapcar) -> in_domain c = true -> m_call c = s_call c.
@@ -201,9 +169,7 @@ Proof.
   intros c Hf Hd. assert (Hb := Hd). split_dom Hb D2 D1 D0 D.
   assert (map_vals c = s_map_vals c) as Hv by reflexivity.
   unfold m_call, s_call. destruct Hf as [F|F]; rewrite F in *; cbn in D.
-  - apply andb_true_iff in D as [N1 N2]. unfold m_map. rewrite Hv.
-    destruct (c_seq c); try discriminate N1; destruct (c_nseq c) as [|[|n]]; cbn in N2; try reflexivity;
-      destruct (c_seq2 c); try discriminate N2; reflexivity.
+  - unfold m_map. now rewrite Hv.
   - apply andb_true_iff in D as [L1 N2]. unfold m_mapcar. rewrite Hv.
     destruct (c_seq c); try discriminate L1; destruct (c_nseq c) as [|[|n]]; cbn in N2; try reflexivity;
       destruct (c_seq2 c); try discriminate N2; reflexivity.
@@ -217,7 +183,7 @@ Theorem reduce_meets_spec : forall c, c_fn c = FReduce -> in_domain c = true ->
   exists r, m_call c = Some r /\ s_call c = Some r.
 Proof.
   intros c F Hd. assert (Hb := Hd). split_dom Hb D2 D1 D0 D. get_bounds Hb B1 B2.
-  rewrite F in D. cbn in D. apply andb_true_iff in D as [D G3]. apply andb_true_iff in D as [N G2].
+  rewrite F in D. cbn in D. rename D into G3.
   unfold m_call, s_call. rewrite F. unfold m_reduce, s_reduce.
   assert (m_reduce_list c (elems (c_seq c)) = m_reduce_list c (elems (c_seq c))) as _ by reflexivity.
   set (l := elems (c_seq c)) in *.
@@ -235,11 +201,11 @@ Proof.
     { unfold s_end in *. destruct (c_end c) as [e|].
       - destruct (Nat.leb_spec e (length l)); [reflexivity|lia].
       - now rewrite firstn_all. }
-    assert ((match c_start c with None => Some (firstn (s_end c l) l) | Some st => if (st <? length (firstn (s_end c l) l))%nat then Some (skipn st (firstn (s_end c l) l)) else None end)
+    assert ((match c_start c with None => Some (firstn (s_end c l) l) | Some st => if (st <=? length (firstn (s_end c l) l))%nat then Some (skipn st (firstn (s_end c l) l)) else None end)
             = Some (slice (s_start c) (s_end c l) l)) as ->.
     { unfold slice. rewrite <- skipn_firstn_comm. unfold s_start in *. destruct (c_start c) as [st|].
-      - cbn in G2. apply Nat.ltb_lt in G2. rewrite firstn_length.
-        destruct (Nat.ltb_spec st (Nat.min (s_end c l) (length l))); [reflexivity|lia].
+      - rewrite firstn_length.
+        destruct (Nat.leb_spec st (Nat.min (s_end c l) (length l))); [reflexivity|lia].
       - reflexivity. }
     cbv zeta. destruct (map (key_app (c_key c)) (slice (s_start c) (s_end c l) l)) as [|x r] eqn:K.
     - assert (s_start c = s_end c l) as Heq.
@@ -248,16 +214,13 @@ Proof.
       rewrite Heq, Nat.eqb_refl in G3. cbn in G3. destruct (c_init c); [|discriminate]. eauto.
     - destruct (c_init c), (c_from_end c); eauto. }
   exists r. split; [|exact R2].
-  subst l. destruct (c_seq c) eqn:S; try discriminate N; cbn [elems] in *; f_equal; exact R1.
+  subst l. f_equal; exact R1.
 Qed.
 
 (* ---- merge -------------------------------------------------------------------------------------------------- *)
 Theorem merge_meets_spec : forall c, c_fn c = FMerge -> in_domain c = true -> m_call c = s_call c.
 Proof.
   intros c F Hd. assert (Hb := Hd). split_dom Hb D2 D1 D0 D.
-  rewrite F in D. cbn in D. apply andb_true_iff in D as [D G]. apply andb_true_iff in D as [D N2].
-  apply andb_true_iff in D as [T N1].
   unfold m_call, s_call, m_merge. rewrite F.
-  rewrite <- (merge_no_ties _ _ _ _ T G).
-  destruct (c_seq c); try discriminate N1; destruct (c_seq2 c); try discriminate N2; reflexivity.
+  now rewrite m_merge_is_reference.
 Qed.
